@@ -69,7 +69,7 @@ func init() {
 	register(&Property{
 		ID:        "C33",
 		Patterns:  []string{"./sql/expression/function"},
-		Technique: "sibling agreement over go/ssa (resolved callees, argument origins), path exploration with value identity for error propagation and NULL returns, switch-table agreement (go/ast + go/constant)",
+		Technique: "sibling agreement over go/ssa (resolved callees, argument origins), path exploration with value identity for error propagation and NULL returns, switch-table agreement (go/ast + go/constant); visitor-callback parameter use (go/ast + go/types)",
 		Explanation: "Structural necessary conditions of 'REGEXP_LIKE / REGEXP_INSTR / REGEXP_SUBSTR / REGEXP_REPLACE agree and invalid patterns produce errors', decided on the Go wrappers (the family = every struct type of " +
 			"sql/expression/function that stores a value of the internal/regex matcher interface; the interface's methods are enumerated from its method set with go/types; analysed with the real build's " +
 			"configuration: cgo enabled, no gms_pure_go tag, i.e. internal/regex/regex_cgo.go aliasing github.com/dolthub/go-icu-regex). " +
